@@ -163,7 +163,8 @@ DriftFind(e) ==
         hb == Buf(e, "hash") sy == Buf(e, "sym") st == Buf(e, "str")
         r == IF e.op = "sysv_find" THEN SysvFind(e.class, little, hb, sy, st, e.name)
              ELSE GnuFind(e.class, little, hb, sy, st, e.name)
-    IN Out(e) = r.out /\ (r.out = "ok" => (e.res.idx = r.idx /\ e.res.sym = r.sym))
+    IN Has(e, "hdr_edit") \/ (Out(e) = r.out /\ (r.out = "ok" => (e.res.idx = r.idx /\ e.res.sym = r.sym)))
+\* (hdr_edit: the caller wrote to the table's public header fields before the lookup; only totality and soundness are judged)
 \* a table the generator claims well formed must satisfy the format's own well-formedness predicate
 GenOkFind(e) ==
     e.wf => IF e.kind = "sysv" THEN SysvWellFormed(e.class, IsLittle(e.es), Buf(e, "hash"), Buf(e, "sym"), Buf(e, "str"))
@@ -232,6 +233,17 @@ PrefixRel(e) ==
             /\ QOut(ff, o, e, FALSE) = po
             /\ po = "ok" => QDet(ff, o, e, FALSE) = QDet(fh.f, fh.eb, e, FALSE))
 
+\* the same for the stream parser
+PrefixRelS(e) ==
+    (sth # <<>> /\ "full" \in DOMAIN slots /\ ~e.faulted /\ ~sth.hadfault) =>
+        LET ff == FileOf("full")
+            o == Open(ff, Rec[sth.openl].es)
+            po == QOut(sth.f, sth.eb, e, TRUE)
+        IN po = "err" \/
+           (/\ o.ok
+            /\ QOut(ff, o, e, TRUE) = po
+            /\ po = "ok" => QDet(ff, o, e, TRUE) = QDet(sth.f, sth.eb, e, TRUE))
+
 \* ---- ElfStream sessions (C07 C08 C17) ---------------------------------------------------------
 \* StreamAbs: what the properties demand of one stream call, given the file, the faults the reader
 \* injected during the call (e.faulted) and before it (sth.hadfault)
@@ -295,7 +307,7 @@ Allowed(e) ==
       [] e.op = "feature" -> FeatureOk(e)
       [] e.op = "feature_core" -> FeatureCoreOk(e)
       [] e.op = "sopen" -> OkSOpen(e)
-      [] e.op = "sq" -> OkSQ(e)
+      [] e.op = "sq" -> OkSQ(e) /\ (Out(e) # "closed" => PrefixRelS(e))
       [] e.op = "sbulk" -> OkSBulk(e)
       [] e.op = "open" -> OkOpen(e)
       [] e.op = "q" -> OkQ(e) /\ (Out(e) # "closed" => PrefixRel(e))
